@@ -108,6 +108,23 @@ pub fn family(tier: Tier) -> Vec<R> {
         for s in u::sequences(&items[..6], 3, 3) {
             out.push(R::node(Tag::SetExt, s));
         }
+        // four-element sets (4! = 24 iteration orders each), flat and nested
+        let d = R::atom(Tag::Operator, "d");
+        let four = vec![a.clone(), b.clone(), c.clone(), d.clone()];
+        for &t in &[Tag::SetExt, Tag::Conj, Tag::IntInt] {
+            for s in u::sequences(&four, 4, 4) {
+                out.push(R::node(t, s));
+            }
+        }
+        let q1 = R::node(Tag::SetInt, vec![a.clone(), b.clone(), c.clone(), d.clone()]);
+        let q2 = R::node(Tag::SetInt, vec![d.clone(), c.clone(), b.clone(), a.clone()]);
+        for &t in &set_tags {
+            out.push(R::node(t, vec![q1.clone(), a.clone()]));
+            out.push(R::node(t, vec![a.clone(), q2.clone()]));
+            out.push(R::node(t, vec![q1.clone(), q2.clone()]));
+        }
+        out.push(R::pair(Tag::Sim, q1.clone(), q2.clone()));
+        out.push(R::pair(Tag::Inh, q1.clone(), q2.clone()));
     }
     // symmetric statements in both operand orders over atoms and inner items
     for &t in &sym_tags {
@@ -165,7 +182,7 @@ pub fn parse_texts() -> Vec<&'static str> {
 pub fn builds(run: &Run) -> Vec<Build> {
     let tier = run.tier;
     let fam = family(tier);
-    let max_keys = tier.pick(64, 160);
+    let max_keys = tier.pick(64, 256);
     run.bound("order_keys_tried_per_set", json!(max_keys));
     run.count("recipes", fam.len() as u64);
     let mut all: Vec<Build> = fam
